@@ -84,4 +84,4 @@ def handleC14 (j : Json) : Except String Verdict := do
   | _ => return .bad s!"unknown kind {k}"
 
 def main (args : List String) : IO Unit :=
-  if args.contains "--xform" then xformLoop xform else runDriver handleC14
+  if args.contains "--xform" then xformLoop xform else runDriver (single handleC14)
